@@ -13,6 +13,7 @@ import os
 import vlib
 
 PROPS = ["C08", "C10"]
+ALSO = ["C07"]        # contributed coverage: distributivity of the GHT bimorphisms (merged by the driver)
 ENGINE = "spec/TupleStore: relational monitor + transcription of the GHT algorithms (TLC exhaustive over all pairs of row sets per store type), every battery replayed into the real tries/collections, trace validation of seeded random operation sequences"
 MANIFEST = {
     "C08": {
@@ -69,6 +70,7 @@ def _validate(events, d, name, results=None, chunks=CHUNKS):
     with concurrent.futures.ThreadPoolExecutor(max_workers=k) as ex:
         outs = list(ex.map(one, range(k)))
     viol, drift = [], []
+    c07 = _validate.c07 = []
     for i, (ok, r) in enumerate(outs):
         if not ok:
             raise vlib.ToolError("trace not consumed by TupleStoreTrace (%s chunk %d):\n%s" % (name, i, r.error_trace[-2500:]))
@@ -76,8 +78,12 @@ def _validate(events, d, name, results=None, chunks=CHUNKS):
         dr = vlib.printed_json(r, "DRIFT")
         if not v or not dr:
             raise vlib.ToolError("TupleStoreTrace printed no VIOL/DRIFT line (%s chunk %d)" % (name, i))
+        v7 = vlib.printed_json(r, "C07")
+        if not v7:
+            raise vlib.ToolError("TupleStoreTrace printed no C07 line (%s chunk %d)" % (name, i))
         viol += v[0]
         drift += dr[0]
+        c07 += v7[0]
         for res in (results or {}).values():
             res.add_tlc(r, "trace-validation:%s/%d" % (name, i))
     return viol, drift
@@ -131,8 +137,26 @@ def _report(results, viol, events, origin):
                       {"ty": head.get("ty"), "ops": _ops_only(evs), "events": evs})
 
 
+SHAPE = {"g0": "()=>u8,u8", "g1": "u8=>u8", "g4": "u8,u8=>u8"}
+
+
+def _report_c07(res7, c07, events, origin):
+    by_case = {c[0]["case"]: c for c in _split_cases(events)}
+    for cid, rule, k in sorted(c07, key=lambda v: (sum(len(by_case[v[0]][v[2]].get(x, [])) for x in ("a", "da", "b")), v[0])):
+        evs = by_case.get(cid, [])
+        ev = evs[k]
+        ty = evs[0]["ty"]
+        res7.violation("ght/%s/%s/%s" % (SHAPE.get(ty, ty), ev["bim"], rule),
+                       "%s of the %s bimorphism on GhtType!(%s): a=%s da=%s b=%s: f(a|da, .) rows %s but f(a, .)|f(da, .) rows %s (own == %s)"
+                       % (rule, ev["bim"], SHAPE.get(ty, ty), ev["a"], ev["da"], ev["b"],
+                          json.dumps(ev["ret"][0] if not ev["panic"] else ev["ret"])[:160],
+                          json.dumps(ev["ret"][1] if not ev["panic"] else "")[:160], ev["ret"][2] if not ev["panic"] else "panic"),
+                       {"ty": ty, "ops": _ops_only([evs[0], ev]), "events": [evs[0], ev]})
+
+
 def run(tier):
     results = {p: vlib.PropResult(p) for p in PROPS}
+    res7 = vlib.PropResult("C07")
     thorough = tier == "thorough"
     bindir = vlib.cargo_build("hv_tuples", bins=["tuplestore"])
     exe = os.path.join(bindir, "tuplestore")
@@ -153,10 +177,10 @@ def run(tier):
         if not r.ok:
             raise vlib.ToolError("TupleStoreImpl model check failed (spec/design error):\n" + r.error_trace[-3000:])
         vlib.require_coverage(r, ["Step"])
-        for res in results.values():
+        for res in list(results.values()) + [res7]:
             res.add_tlc(r, "TupleStoreImpl exhaustive batteries %s" % ",".join(groups[i]))
         cases += vlib.printed_json(r, "CASE")
-    want = len(TYPES) * (2 ** nrows) ** 2
+    want = len(TYPES) * (2 ** nrows) ** 2 + 5 * 2 * 2 ** nrows      # batteries + distributivity scripts (5 bimorphism/shape combos x 2 sides)
     if len(cases) != want:
         raise vlib.ToolError("generator printed %d cases, expected %d" % (len(cases), want))
     cases.sort(key=lambda c: json.dumps(c, sort_keys=True))
@@ -176,6 +200,7 @@ def run(tier):
     events = [e for e in vlib.read_ndjson(trace) if e.get("e") != "eof"]
     viol, drift = _validate(events, d, "replay", results)
     _report(results, viol, events, "replayed")
+    _report_c07(res7, _validate.c07, events, "replayed")
     seen = {p: set() for p in PROPS}
     all_cases = _split_cases(events)
 
@@ -188,6 +213,7 @@ def run(tier):
     revents = [e for e in vlib.read_ndjson(rtrace) if e.get("e") != "eof"]
     rviol, rdrift = _validate(revents, d, "random", results)
     _report(results, rviol, revents, "random")
+    _report_c07(res7, _validate.c07, revents, "random")
     rcases = _split_cases(revents)
 
     for origin, cs, drs in (("replay", all_cases, drift), ("random", rcases, rdrift)):
@@ -206,6 +232,26 @@ def run(tier):
                     res.drift.append({"kind": "implementation fact: " + what, "ty": c[0]["ty"], "case": cid, "origin": origin})
     for pid in PROPS:
         results[pid].distinct_nontrivial = len(seen[pid])
+
+    # C07 contribution: what was covered
+    seen7 = set()
+    for cs in (all_cases, rcases):
+        for c in cs:
+            dists = [e for e in c[1:] if e["op"] == "dist"]
+            if dists:
+                res7.traces += 1
+                res7.evaluations += len(dists)
+                for e in dists:
+                    if e["da"] and e["b"] and any(r not in e["a"] for r in e["da"]):
+                        seen7.add(json.dumps([c[0]["ty"], e["bim"], e["side"], e["a"], e["da"], e["b"]]))
+    res7.distinct_nontrivial = len(seen7)
+    res7.rule = ("GHT bimorphisms (cartesian product, value-type product, keyed/deep join, GhtBimorphism wrapper): case = "
+                 "(trie shape, bimorphism, side, a, da, b); both f(a|da, b) and f(a, b)|f(da, b) are computed with the real code "
+                 "and compared by TLC with the relational join; non-trivial = da adds a row not in a and b is non-empty; "
+                 "distinct by inputs")
+    res7.assumptions = ["rows are u8 columns; shapes ()=>u8,u8 (leaf product), u8=>u8 (product, keyed join, wrapper), u8,u8=>u8 (two-level deep join)"]
+    d1 = next(e for c in all_cases for e in c[1:] if e["op"] == "dist" and e["bim"] == "join" and len(e["da"]) > 1 and e["b"] and e["ret"][0])
+    res7.samples.append({"kind": "distributivity event of the deep join with what the real code returned", "event": d1})
 
     # samples
     g1 = [c for c in cases if c["ty"] == "g1" and any(o["op"] == "insert" for o in c["ops"])]
@@ -235,6 +281,13 @@ def run(tier):
     v2 = canary("coll", "len", lambda r: [r[0] + 1, r[1]])
     if not v1 or not any(x[1] == "contains" for x in v1) or not v2 or not any(x[1] == "len" for x in v2):
         raise vlib.ToolError("canary (flipped contains / wrong len) was NOT flagged: %s %s" % (v1, v2))
+    dcase = next(c for c in all_cases if len(c) > 1 and c[1]["op"] == "dist")
+    badd = json.loads(json.dumps(dcase[:2] + [e for e in dcase[2:] if e["ret"][1]][:1]))
+    badd[-1]["ret"][1] = badd[-1]["ret"][1][1:]      # drop one row of the right-hand side
+    _validate(badd, d, "canary_c07", chunks=1)
+    if not any(x[1].startswith("distributivity") for x in _validate.c07):
+        raise vlib.ToolError("canary (row dropped from f(a,b)|f(da,b)) was NOT flagged: %s" % _validate.c07)
+    res7.extra["canary_ght"] = "row dropped from one side of a distributivity event flagged: %s" % _validate.c07[:2]
     results["C08"].extra["canary"] = "flipped contains() result flagged: %s" % v1[:2]
     results["C10"].extra["canary"] = "len() off by one flagged: %s" % v2[:2]
 
@@ -249,6 +302,7 @@ def run(tier):
                                   "bag semantics for counted / column leaves: merge_node adds multiplicities"]
     results["C10"].assumptions = ["RandomState hasher (hash values never enter an expectation; results are compared as bags)",
                                   "return value of insert() is not part of the property (reported as drift at most)"]
+    results["C07"] = res7
     return results
 
 
